@@ -76,6 +76,7 @@ type c06Hist struct {
 	// generator-side mirror, only used to pick mostly valid operations
 	proposer map[uint64]int
 	lastObs  c06Obs
+	idx      map[string]int // bech32 -> universe id
 	govMinB  int64 // denom-B component of the gov MinDeposit of this history (0 = denom B is not a deposit denom)
 	dp       int64 // gov MaxDepositPeriod as last set
 }
@@ -112,12 +113,16 @@ func c06Deliver(app *simapp.App, ctx sdk.Context, msg sdk.Msg) error {
 }
 
 func (h *c06Hist) idOf(bech string) int {
-	for i, a := range h.addrs {
-		if a.String() == bech {
-			return i
+	if len(h.idx) != len(h.addrs) {
+		h.idx = map[string]int{}
+		for i, a := range h.addrs {
+			h.idx[a.String()] = i
 		}
 	}
-	return 99
+	if i, ok := h.idx[bech]; ok {
+		return i
+	}
+	return 99999
 }
 
 func (h *c06Hist) observe(ok bool) c06Obs {
@@ -625,7 +630,7 @@ func (h *c06Hist) storeCase(w *CaseWriter, hi int) {
 	var addrs, un, listing []string
 	for i, a := range h.addrs {
 		addrs = append(addrs, fmt.Sprintf("(%s, %s)", coqBytes(a), coqBool(h.e.app.SanctionKeeper.IsSanctionedAddr(h.ctx, a))))
-		if i >= c06NUsers {
+		if i >= c06NUsers && i < c06NUsers+c06NProt {
 			un = append(un, coqBytes(a))
 		}
 	}
@@ -950,6 +955,28 @@ func c06History(e *c06Env, r *rand.Rand, w *CaseWriter, hi int) {
 		h.addrs = append(h.addrs, a)
 	}
 	h.addrs = append(h.addrs, c06Protected()...)
+	// "big" histories: proposals naming hundreds of addresses (sanctions lists), resolved as
+	// rejected / failed on execution / expired in deposit; ids 10.. are cheap addresses without funds
+	big := hi == 12 || (hi > 12 && hi%400 == 12)
+	var bigSizes [3]int
+	if big {
+		bigSizes = [3]int{250, 150, 101}
+		if hi > 12 {
+			all := []int{101, 150, 250, 500, 100, 199, 200, 201}
+			for i := range bigSizes {
+				bigSizes[i] = all[r.Intn(len(all))]
+			}
+		}
+		nBig := 0
+		for _, x := range bigSizes {
+			if x > nBig {
+				nBig = x
+			}
+		}
+		for i := 0; i < nBig; i++ {
+			h.addrs = append(h.addrs, addrN(900000+hi*1000+r.Intn(3)+3*i))
+		}
+	}
 	// gov params of this history: burn flags, and (1 history in 8) a gov minimum in the bond denom
 	// only, so that denom B is no deposit denom at all
 	burnVeto, burnQuorum, burnPrevote := r.Intn(4) != 0, r.Intn(4) == 0, r.Intn(4) == 0
@@ -978,6 +1005,9 @@ func c06History(e *c06Env, r *rand.Rand, w *CaseWriter, hi int) {
 		sm, um = [2]int64{300, 10}, [2]int64{400, 10}
 	case hi == 4 || hi == 5 || hi == 11:
 		sm, um = [2]int64{0, 0}, [2]int64{0, 0}
+	}
+	if big {
+		sm, um = [2]int64{1500, 0}, [2]int64{200, 0}
 	}
 	if err := e.app.SanctionKeeper.SetParams(ctx, &sanction.Params{ImmediateSanctionMinDeposit: h.coins2(sm[0], sm[1]), ImmediateUnsanctionMinDeposit: h.coins2(um[0], um[1])}); err != nil {
 		e.t.Fatal(err)
@@ -1176,7 +1206,38 @@ func c06History(e *c06Env, r *rand.Rand, w *CaseWriter, hi int) {
 			opNewBlock(c06T0 + 300), opSend(1, 0, 5),
 		}
 	}
+	storeAt := -1
+	if big {
+		// subsets of the cheap addresses (ids 10..), each with one of the funded accounts
+		pickBig := func(n int, extra ...int) []int {
+			perm := r.Perm(len(h.addrs) - 10)
+			out := append([]int{}, extra...)
+			for _, x := range perm[:n-len(extra)] {
+				out = append(out, 10+x)
+			}
+			return out
+		}
+		nAll := len(h.addrs) - 10
+		setA, setB, setC := pickBig(bigSizes[0], 1), pickBig(bigSizes[1], 2), pickBig(bigSizes[2], 4)
+		script = []c06Op{
+			opDirect(h, true, san(pickBig(nAll/2, 2)...), 0), // half of them (and account 2) permanently sanctioned
+			opSubmit2(h, 0, []c06Msg{san(setA...)}, 1500, 20, 300, 100),                // id+0 -> rejected
+			opSubmit(h, 3, []c06Msg{uns(setB...)}, 200, 100, 100),                      // id+1 -> expires in deposit
+			opSubmit2(h, 0, []c06Msg{uns(setC...), san(c06IDGov)}, 1000, 20, 300, 100), // id+2 -> passes, fails on execution
+			opVote(firstID, false), opVote(firstID+2, true),
+			opSend(1, 0, 5), opSend(2, 0, 5), opSend(4, 0, 5),
+			opNewBlock(c06T0 + 100),
+			opNewBlock(c06T0 + 101), // all three are resolved here
+			opSend(1, 0, 5), opSend(2, 0, 5), opSend(4, 0, 5),
+		}
+		storeAt = 3 // the raw store with all the entries in it
+		w.Count("big_histories")
+		w.CountN("big_history_addresses_named", int64(bigSizes[0]+bigSizes[1]+bigSizes[2]))
+	}
 	n := 25 + r.Intn(25)
+	if big {
+		n = len(script) + 4
+	}
 	type stepRec struct {
 		Op  string         `json:"op"`
 		Obs map[string]any `json:"obs"`
@@ -1197,6 +1258,9 @@ func c06History(e *c06Env, r *rand.Rand, w *CaseWriter, hi int) {
 		ok := op.run(h)
 		ob := h.observe(ok)
 		h.lastObs = ob
+		if i == storeAt {
+			h.storeCase(w, hi*1000+i)
+		}
 		steps = append(steps, fmt.Sprintf("(%s, %s)", op.term, ob.coq()))
 		recs = append(recs, stepRec{Op: op.desc, Obs: ob.json()})
 		total++
@@ -1304,11 +1368,15 @@ func c06History(e *c06Env, r *rand.Rand, w *CaseWriter, hi int) {
 	}
 	cfg := fmt.Sprintf("{| c_unsanct := [5%%N; 6%%N; 7%%N; 8%%N; 9%%N]; c_gov_min := %s; c_exp_min := %s; c_thr := %d; c_exp_thr := %d; c_veto := %d; c_burn_veto := %s; c_burn_quorum := %s; c_burn_prevote := %s |}",
 		pair2(c06GovMin, h.govMinB), pair2(c06ExpMin, 0), e.thr, e.expThr, e.veto, coqBool(burnVeto), coqBool(burnQuorum), coqBool(burnPrevote))
-	term := fmt.Sprintf("CHist %s [0%%N; 1%%N; 2%%N; 3%%N; 4%%N; 5%%N; 6%%N; 7%%N; 8%%N; 9%%N] [0%%N; 1%%N; 2%%N; 3%%N; 4%%N] %d%%N %s\n    (%s)\n    %s",
-		cfg, firstID, zI64(c06T0), ob0.coq(), coqList(steps))
+	var universe []int
+	for i := range h.addrs {
+		universe = append(universe, i)
+	}
+	term := fmt.Sprintf("CHist %s %s [0%%N; 1%%N; 2%%N; 3%%N; 4%%N] %d%%N %s\n    (%s)\n    %s",
+		cfg, nList(universe), firstID, zI64(c06T0), ob0.coq(), coqList(steps))
 	w.Add(term, map[string]any{"kind": "history", "index": hi, "immediate_sanction_min": sm, "immediate_unsanction_min": um, "gov_min_deposit": [2]int64{c06GovMin, h.govMinB}, "expedited_min_deposit": [2]int64{c06ExpMin, 0}, "denoms": "pairs are (bond denom, bbbcoin)",
 		"burn_veto_quorum_prevote": []bool{burnVeto, burnQuorum, burnPrevote},
-		"first_proposal_id": firstID, "universe": "0-4 plain accounts (3 = 32-byte address extending 2's bytes), 5 gov module account, 6 quarantine funds holder, 7 fee collector, 8 bonded pool, 9 marker module", "initial": ob0.json(), "steps": recs,
+		"first_proposal_id": firstID, "universe": "0-4 plain accounts (3 = 32-byte address extending 2's bytes), 5 gov module account, 6 quarantine funds holder, 7 fee collector, 8 bonded pool, 9 marker module, 10.. (big histories only) unfunded addresses named by large proposals", "universe_size": len(h.addrs), "initial": ob0.json(), "steps": recs,
 		"accepted": accepted, "ops": total})
 	w.Count("histories")
 	h.storeCase(w, hi)
